@@ -31,6 +31,7 @@ pub const SITE_ABW_SLEEP: u16 = 13;
 pub const SITE_POLL_PENDING: u16 = 14;
 pub const SITE_POLL_EXISTS: u16 = 15;
 pub const SITE_NOW: u16 = 16;
+pub const SITE_BACKOFF: u16 = 17;
 
 #[cfg(not(kani))]
 pub mod std {
@@ -40,6 +41,9 @@ pub mod std {
     }
     pub mod time {
         pub use ::std::time::*;
+    }
+    pub mod hint {
+        pub use ::std::hint::*;
     }
 }
 #[cfg(not(kani))]
